@@ -306,6 +306,24 @@ def run(ck, facts, tier):
                          "%s:%d" % (rr["file"], rr["line"]), detail=cel.vfmt(got)[:200], sample=cel.vfmt(got)[:100])
             except Unsupported as e:
                 ck.fail(r7, key, "rule could not be established (%s)" % e, "%s:%d" % (rr["file"], rr["line"]))
+    # ---------------- R11.8 the curve's own look-ups are its interpolator's
+    r8 = ck.rule("R11.8", "CurveDF::interpolated_value(date) = interpolator.interpolated_value(&nodes, date) and CurveDF::node_index(ts) = interpolator.node_index(&nodes, ts): "
+                          "the interval a curve reports is the interval its look-up uses", floor=2)
+    CD = "curves::curve::CurveDF::<T, U>::"
+    for meth in ("interpolated_value", "node_index"):
+        rr = facts.fn(CD + meth)
+        if rr is None:
+            ck.fail(r8, meth, "method not found")
+            continue
+        me = Rec("curves::curve::CurveDF", {"interpolator": Sym("field", "interpolator"), "nodes": Sym("field", "nodes")})
+        arg = Sym("param", "x")
+        try:
+            got = cel.Ev(facts, hooks={"CurveInterpolation::" + meth: lambda ev_, vals, e, meth=meth: Sym("interp", meth, *[cel.vkey(v) for v in vals])}).apply_fn(CD + meth, [me, arg], 0)
+            want = Sym("interp", meth, cel.vkey(Sym("field", "interpolator")), cel.vkey(Sym("field", "nodes")), cel.vkey(arg))
+            ck.check(r8, meth, cel.vkey(got) == cel.vkey(want), "CurveDF::%s is not its interpolator's %s on its own nodes: %s" % (meth, meth, cel.vfmt(got)[:200]),
+                     "%s:%d" % (rr["file"], rr["line"]), sample="self.interpolator.%s(&self.nodes, x)" % meth)
+        except Unsupported as e:
+            ck.fail(r8, meth, "rule could not be established (%s)" % e, "%s:%d" % (rr["file"], rr["line"]))
     # supply order also reaches the variable tags of a curve built with derivatives: nodes are sorted before they are enumerated (C12 R12.2)
     from rules import c12
     if not getattr(ck, "_c11_c12_nested", False):          # C12 includes R11.4 of this module in turn
